@@ -133,9 +133,13 @@ def inv07(graph):
         for d in t["deps"]:
             if d in by and t["id"] not in by[d]["rdeps"]:
                 bad.append(("mirror", t["id"], d))
+            if d not in by:
+                bad.append(("deps-names-missing-item", t["id"], d))
         for r in t["rdeps"]:
             if r in by and t["id"] not in by[r]["deps"]:
                 bad.append(("mirror", r, t["id"]))
+            if r not in by:
+                bad.append(("rdeps-names-missing-item", t["id"], r))
     return bad
 
 
